@@ -105,7 +105,9 @@ pub fn run(sc: &Value) -> Vec<String> {
         let e: Value = serde_json::from_str(l).ok()?;
         let spawns = ga(&e, "spawns").len();
         let elapsed = gu(&e, "elapsed");
-        if gs(&e, "res") == "ok" && elapsed > 200 * spawns.saturating_sub(1) + 250 {
+        // (an address that accepts late is reached by the SYN retransmitted after about a second)
+        let late = if ga(&e, "resolved").iter().any(|a| gs(a, "beh") == "late") { 1300 } else { 0 };
+        if gs(&e, "res") == "ok" && elapsed > 200 * spawns.saturating_sub(1) + 250 + late {
             Some(elapsed)
         } else {
             None
@@ -125,6 +127,8 @@ fn run_once(sc: &Value) -> Vec<String> {
     if gb(sc, "ctoMax") && resolved.iter().any(|a| gs(a, "beh") == "blackhole") {
         return vec![]; // "no connect timeout of its own" and an address that never answers: only the kernel would end it
     }
+    // (the shared silent and refusing ports are made before any clock of this scenario starts)
+    let _ = (holes().len(), refused().len());
     let stop = Arc::new(AtomicBool::new(false));
     let winner: Arc<Mutex<Option<(String, usize)>>> = Arc::new(Mutex::new(None));
     let mut addrs: Vec<SocketAddr> = Vec::new();
